@@ -363,6 +363,20 @@ def parse_kani_log(text):
     return r
 
 
+def make_playback_snapshot(snap, scratch):
+    """copy of the kani snapshot in which vcover! is a no-op: the playback run then produces traces for
+    failed assertions only (every satisfied cover costs one full trace, and kani-driver needs gigabytes
+    per trace). (--stop-on-fail would leave one trace, but kani-driver cannot parse that output.)"""
+    dst = os.path.join(scratch, "snap-pb")
+    if not os.path.exists(dst):
+        shutil.copytree(snap, dst)
+        rt = os.path.join(dst, "src", "verif", "rt.rs")
+        txt = open(rt).read()
+        txt = txt.replace("kani::cover!($c, $msg);", "let _ = $c;")
+        open(rt, "w").write(txt)
+    return dst
+
+
 def kani_cmd(h, target_dir, playback):
     """phase 1: terse output (kani-driver's 'regular' post-processing of ~10k checks costs ~100 s);
     phase 2 (only after a failure): the same query with concrete playback printed"""
@@ -589,7 +603,8 @@ def main(argv):
                 logp2 = os.path.join(logdir, h.name + ".playback.log")
                 # kani-driver needs several GB (up to tens) to parse CBMC's JSON trace: one at a time, 48 GB
                 with playback_lock:
-                    rc2, to2, dt2 = run_cmd(kani_cmd(h, tdir, True), snap, ENV_BASE, max(cap * 2, 1800), logp2, 48)
+                    pb_snap = make_playback_snapshot(snap, scratch)
+                    rc2, to2, dt2 = run_cmd(kani_cmd(h, tdir + "-pb", True), pb_snap, ENV_BASE, max(cap * 2, 1800), logp2, 48)
                 res2 = parse_kani_log(open(logp2, errors="replace").read())
                 res["playback"] = res2["playback"]
                 dt += dt2
